@@ -3,9 +3,11 @@
 package vals
 
 import (
+	"encoding/base64"
 	"encoding/json"
 	"fmt"
 	"math"
+	"strconv"
 	"time"
 
 	"github.com/cube2222/octosql/execution"
@@ -92,6 +94,13 @@ func ToValue(x interface{}) octosql.Value {
 		}
 		return octosql.NewInt(int64(num(m["i"])))
 	case "float":
+		if lit, ok := m["lit"].(string); ok { // a decimal literal (C25)
+			f, err := strconv.ParseFloat(lit, 64)
+			if err != nil {
+				panic(err)
+			}
+			return octosql.NewFloat(f)
+		}
 		return octosql.NewFloat(num(m["n"]) / num(m["d"]))
 	case "fsp":
 		switch m["s"] {
@@ -109,6 +118,13 @@ func ToValue(x interface{}) octosql.Value {
 	case "bool":
 		return octosql.NewBoolean(m["b"].(bool))
 	case "str":
+		if b, ok := m["b64"].(string); ok { // raw bytes (C25)
+			raw, err := base64.StdEncoding.DecodeString(b)
+			if err != nil {
+				panic(err)
+			}
+			return octosql.NewString(string(raw))
+		}
 		return octosql.NewString(Str(m["s"].(string)))
 	case "time":
 		if z, ok := m["z"]; ok { // same instant, another zone
